@@ -78,3 +78,21 @@ Proof.
   - now rewrite Hr.
   - rewrite (IH Hin Hr). now destruct (ns_route s x).
 Qed.
+
+Theorem ns_mget_route_served s pks p :
+  ns_mget_route s pks = Some p -> pks <> [] /\ forall pk, In pk pks -> ns_route s pk = Served p.
+Proof.
+  unfold ns_mget_route. destruct (ns_route_all s pks) as [[|q r]|] eqn:E; try discriminate.
+  destruct (forallb (N.eqb q) r) eqn:F; [|discriminate].
+  intros H; injection H as <-.
+  destruct (ns_route_all_some _ _ _ E) as [Hlen Hnth].
+  split; [intros ->; discriminate Hlen|].
+  intros pk Hin. apply In_nth_error in Hin as [i Hi].
+  destruct (Hnth i pk Hi) as (p' & Hp' & Hr). rewrite Hr. f_equal.
+  destruct i as [|i]; simpl in Hp'; [now injection Hp' as <-|].
+  rewrite forallb_forall in F. apply nth_error_In in Hp'. apply F in Hp'. now apply N.eqb_eq in Hp'.
+Qed.
+
+Theorem ns_mget_route_rejects_unhosted s pks pk :
+  In pk pks -> ns_route s pk = Rejected -> ns_mget_route s pks = None.
+Proof. intros Hin Hr. unfold ns_mget_route. now rewrite (ns_route_all_rejects _ _ _ Hin Hr). Qed.
